@@ -111,10 +111,14 @@ func (fc *FnCtx) callFunc(fr *Frame, st *State, reach string, callee *ssa.Functi
 		return h(fc, fr, st, reach, args, call)
 	}
 	if con := fc.eng.contractFor(name, fc.props); con != nil && !con.Inline {
-		if con.Effect != "nonblocking" && (len(st.nbLocks) > 0 || (fc.con != nil && fc.con.Effect == "nonblocking")) {
+		eff := con.Effect
+		if prim := fc.eng.contracts[name]; eff == "" && prim != nil {
+			eff = prim.Effect // a property-scoped view inherits the verified effect class
+		}
+		if eff != "nonblocking" && (len(st.nbLocks) > 0 || (fc.con != nil && fc.con.Effect == "nonblocking")) {
 			fc.blockingOp(fr, st, reach, "call of "+shortName(callee)+" (not declared non-blocking)")
 		}
-		if con.Effect == "" {
+		if eff == "" {
 			fc.unboundedWait(fr, reach, "call of "+shortName(callee)+" (no blocking effect declared)")
 		}
 		return fc.callByContract(fr, st, reach, con, callee, args, call)
